@@ -14,6 +14,7 @@ TABLE = [  # (commit, checks expected to fire, what)
     ("c6c382ff+ab47799e", ["C16"], "check_kinematics (+XS use of it)"), ("ab47799e", ["C16"], "XS kinematics first"), ("f62435bb", ["C16"], "TMC map"), ("52cdf90f", ["C16"], "dispatch errors"),
     ("25f7ee1f+0ecc585d", ["C03"], "heavy N3LO splines from finite rows (+ scalar return built on it)"), ("aba9f4d3", ["C16"], "replace_nans_with_0 name test"),
     ("628c815a", ["C18"], "fl_cc loc args"), ("93283357", ["C08"], "missing asy weights"), ("d8ec27c4", ["C08"], "FL Adler"), ("dd5ce457", ["C01"], "threshold kink break point"),
+    ("a6db27f7", ["C14"], "SF cache keyed by named kinematics"),
 ]
 tier = sys.argv[1] if len(sys.argv) > 1 else "quick"
 only = sys.argv[2:]
